@@ -174,6 +174,29 @@ int main(int argc, char** argv) {
     if (x) { RCHECK(threw == (k != size), "exact-size reader %s on a short source", threw ? "threw although the source had enough bytes" : "returned"); }
     else RCHECK(!threw && got.size() == k, "returned %zu bytes, the source delivered %zu (truncated or padded)", got.size(), k);
     if (!threw) RCHECK(memcmp(got.data(), data.data(), k) == 0, "content differs");
+    if (fn == "readx" || fn == "readx_str") {
+      // the same request with the bytes arriving in two pieces (pipe with a delayed writer): exactly the bytes of the source, or an exception
+      size_t want = size ? size : 11;
+      if (want < 2) want = 2;
+      string src = pattern(want, false);
+      int p2[2];
+      if (::pipe(p2)) return 2;
+      std::thread writer([&]() {
+        size_t first = want / 2;
+        if (::write(p2[1], src.data(), first) != (ssize_t)first) return;
+        usleep(150000);
+        if (::write(p2[1], src.data() + first, want - first) != (ssize_t)(want - first)) return;
+        ::close(p2[1]);
+      });
+      string got2; bool threw2 = false;
+      try {
+        if (fn == "readx") { got2.resize(want); readx(p2[0], got2.data(), want); } else got2 = readx(p2[0], want);
+      } catch (const exception& e) { threw2 = true; printf("chunked delivery: threw: %s\n", e.what()); }
+      ::close(p2[0]);
+      writer.join();
+      printf("%s: %zu bytes delivered in two pieces; %s\n", fn.c_str(), want, threw2 ? "threw" : "returned");
+      if (!threw2) RCHECK(got2.size() == want && memcmp(got2.data(), src.data(), want) == 0, "the bytes returned are not the bytes the source delivered (delivery in two pieces)");
+    }
     return 0;
   }
   if (m == "file_replace") {
